@@ -258,7 +258,7 @@ def body_enum(ctx, case):
 def strat_bag():
     from hypothesis import strategies as st
     # symbols are code points: a base letter followed by a combining mark stays two symbols
-    hyp = st.text(alphabet="abc", max_size=5) | st.text(alphabet="ae\u0301\u0308c", max_size=5)
+    hyp = st.text(alphabet="abc", max_size=5) | st.text(alphabet="ae\u0301\u0308c", max_size=5) | st.text(alphabet="ab \t", max_size=5)
     sc = st.floats(-8.0, 0.0, allow_nan=False)
     entry = st.tuples(hyp, sc, st.one_of(st.none(), sc))
     return st.tuples(st.lists(entry, min_size=1, max_size=6, unique_by=lambda e: e[0]),
@@ -285,6 +285,17 @@ def body_bag(ctx, case):
     cn = ctx.must("produce_raises", CN.produce_cn_from_boh, boh, vw, lw, True)
     for p in cn:
         ctx.check(abs(sum(p.values()) - 1.0) < 1e-9, "position_not_normalised", lambda: "case=%r cn=%r" % (case, cn))
+    # the same bag asked again, in the other mode and with other weights: every answer is the fold of its own weights
+    raw_again = ctx.must("produce_raises", CN.produce_cn_from_boh, boh, vw, lw, False)
+    ctx.check(len(raw_again) == len(ref) and all(set(a) == set(b) and all(close(a[k], b[k]) for k in a) for a, b in zip(raw_again, ref)),
+              "produce_depends_on_earlier_calls_for_the_same_bag", lambda: "case=%r: un-normalised network asked after the normalised one %r, want %r" % (case, raw_again, ref))
+    ref2 = []
+    for (t, v, l) in entries:
+        l = l if with_lm and l is not None else None
+        ref2 = CN.add_hypothese(ref2, t, math.exp(0.5 * vw * v + (lw * l if l is not None else 0.0)))
+    raw2 = ctx.must("produce_raises", CN.produce_cn_from_boh, boh, 0.5 * vw, lw, False)
+    ctx.check(len(raw2) == len(ref2) and all(set(a) == set(b) and all(close(a[k], b[k]) for k in a) for a, b in zip(raw2, ref2)),
+              "produce_depends_on_earlier_calls_for_the_same_bag", lambda: "case=%r: with half the visual weight got %r want %r" % (case, raw2, ref2))
     first_empty = entries[0][0] == ""
     for i, (t, v, l) in enumerate(entries):
         if KEY in ctx.known_keys and t == "" and i == 0 and len(entries) > 1:
